@@ -302,6 +302,11 @@ pub fn build(repo: &Path, root: &Path, with_big: bool) -> Tree {
     put("malformed_schema.json", b"{ \"data\": { \"__schema\": ", "malformed-json", &mut bads);
     put("no_schema.json", b"{\"foo\": 1}", "json-without-schema", &mut bads);
     put("schema.txt", b"type Query { a: String }\nschema { query: Query }\n", "unsupported-extension", &mut bads);
+    // schemas that are read and PARSE but make the conversion into the internal schema panic half
+    // way (dangling type names), i.e. a failure that unwinds out of the middle of schema building
+    put("dangling_type_schema.graphql", b"enum Colour { RED GREEN }\ninput Filter { c: Colour }\ntype Query { fav(f: Filter): Colour, bad: NoSuchType }\nschema { query: Query }\n", "conversion-panics", &mut bads);
+    put("dangling_iface_schema.graphql", b"scalar Stamp\nenum Tone { LOW HIGH }\ntype A implements Nope { a: Int, t: Tone }\ntype Query { a: A }\nschema { query: Query }\n", "conversion-panics", &mut bads);
+    put("dangling_type_schema.json", b"{\"data\":{\"__schema\":{\"queryType\":{\"name\":\"Query\"},\"mutationType\":null,\"subscriptionType\":null,\"directives\":[],\"types\":[{\"kind\":\"ENUM\",\"name\":\"Colour\",\"description\":null,\"fields\":null,\"inputFields\":null,\"interfaces\":null,\"enumValues\":[{\"name\":\"RED\",\"description\":null,\"isDeprecated\":false,\"deprecationReason\":null}],\"possibleTypes\":null},{\"kind\":\"OBJECT\",\"name\":\"Query\",\"description\":null,\"fields\":[{\"name\":\"fav\",\"description\":null,\"args\":[],\"type\":{\"kind\":\"ENUM\",\"name\":\"Colour\",\"ofType\":null},\"isDeprecated\":false,\"deprecationReason\":null},{\"name\":\"bad\",\"description\":null,\"args\":[],\"type\":{\"kind\":\"OBJECT\",\"name\":\"NoSuchType\",\"ofType\":null},\"isDeprecated\":false,\"deprecationReason\":null}],\"inputFields\":null,\"interfaces\":[],\"enumValues\":null,\"possibleTypes\":null}]}}}", "conversion-panics", &mut bads);
     put("schema_noext", b"type Query { a: String }\nschema { query: Query }\n", "no-extension", &mut bads);
     put("schema_upper.GRAPHQL", b"type Query { a: String }\nschema { query: Query }\n", "upper-case-extension", &mut bads);
     put("schema_upper.JSON", b"{\"data\":{\"__schema\":{\"queryType\":{\"name\":\"Query\"},\"mutationType\":null,\"subscriptionType\":null,\"types\":[],\"directives\":[]}}}", "upper-case-extension", &mut bads);
